@@ -17,7 +17,7 @@ def run(ctx):
                         "conversions asserted only where the statement fixes them (DeSpec.ConvBase)",
                         "size_hint compared as a bracket, not for exactness"]
     tier = "quick" if ctx.quick else "thorough"
-    for part in ("conv", "iter", "hdr"):
+    for part in (("conv", "iter", "hdr") if ctx.quick else ("conv", "iter", "hdr", "hdr3")):
         r = ctx.tlc("de", "MC_De", "MC_De_%s_%s.cfg" % (tier, part), workers=ctx.pick(6, 12),
                     timeout=ctx.pick(600, 3000), xmx=ctx.pick("4g", "12g"))
         if "REPLAY" in r["tags"]:
